@@ -22,6 +22,14 @@ STRENGTH_ID = {
  "C01-m3": "caught as built (experiment seed in workers)", "C01-m4": "environments that are slow to pickle under maxchunksperchild=1 (the loader lags behind the workers); also caught by C08's scheduled co-simulation",
  "C02-m3": "caught as built (cut 1 byte into a gzip member)", "C02-m4": "caught as built (cut between a record and its newline)", "C03-m3": "failing learners publish learning_info before they raise; corpus experiments with the failing triple ahead of healthy ones",
  "C03-m4": "caught as built", "C08-m3": "real-process layer: a filter that kills its worker (os._exit) must not hang the call", "C08-m4": "caught as built", "C19-m3": "caught as built", "C19-m4": "re-entrant reads of one key by one caller (nesting depth 1-4, body failing or not)",
+ "C04-m5": "params after any history are compared with those of an identical environment that was simply read (found the open finding C04-saved-before-read-n-actions on the way)", "C04-m6": "grounded(...) added to the filter set; a long materialized / cached grounded environment is read twice",
+ "C05-m5": "caught as built (critical seeds by LCG inversion)", "C05-m6": "caught as built", "C06-m5": "action sets drawn from a small pool so that a set recurs after a different one, with and without the arms 0/1", "C06-m6": "logged data with a missing propensity (None) on some interactions",
+ "C10-m5": "heterogeneous action sets (an empty sparse mapping next to dense vectors / scalars); found and fixed af1271b on the way", "C10-m6": "later interactions list the same categorical levels in another order; found and fixed 3fe04a8 on the way",
+ "C13-m5": "row predicates on DropRows (by position, by name, over the whole row) in the dense and sparse generators", "C13-m6": "caught as built (label of a sparse row that does not store it)",
+ "C14-m5": "dict-row sources whose zero label is not stored", "C14-m6": "environments built through Environments.from_supervised with keyword arguments (the property's observation point)",
+ "C15-m5": "an empty kwargs mapping on un-batched calls", "C15-m6": "caught as built", "C17-m5": "caught as built", "C17-m6": "caught as built",
+ "C19-m5": "getters that fail with KeyboardInterrupt / SystemExit at every point of their stream, for DiskCacher and under ConcurrentCacher; found and fixed 9f814b6 on the way", "C19-m6": "slot law: child interpreters with other string-hash seeds must map every key to the same lock-table slot",
+ "C08-m5": "payload law: None and falsy items (first or later) through Multiprocessor and CobaMultiprocessor", "C08-m6": "a lazy item stream that re-fills one buffer object in place (scheduled co-simulation)",
  "C20-m3": "caught as built (interleaved terms such as 'xax')", "C20-m4": "caught as built (number-first mixed sequences)",
 }
 def heading(pid, m):
